@@ -64,6 +64,21 @@ def c11_2(c: Ctx) -> None:
             c.ok(where(u, arm), f'records error={arm.name} (the caught exception object)')
         else:
             c.fail(u, f'except Exception arm records {[U(q.kw(x, "error"))[:40] for x in ups] or "no error"}', 'the recorded error is not the original exception object', node=arm)
+        # the error is recorded on every path through the arm: nothing that may raise precedes the update
+        g = c.cfg(u)
+        inside = {id(x) for b in arm.body for x in ast.walk(b)}
+        from sa.cfg import search
+
+        def is_upd(n):
+            return any(call_name(x) == 'event_result_update' and q.kw(x, 'error') is not None for x in q.node_calls(n))
+
+        for en in g.nodes_of(arm, ('except',)):
+            p = search([(en, ())], is_target=lambda n, d: n.ast is None or id(n.ast) not in inside, is_barrier=lambda n, d: is_upd(n))
+            if p is None:
+                c.ok(where(u, arm), f'[{en.exc}] the error result is recorded before anything in the arm can raise')
+            else:
+                how = next((s_.via for s_ in p if s_.via.startswith('raises')), 'normal path')
+                c.fail(u, f'except Exception arm can be left before the error is recorded ({how} at `{p[max(0, len(p) - 2)].node.text(60)}`)', "the handler's exception is never captured as its error result: the result stays 'started' and the event never completes", node=arm, witness=c.path(en, p))
         last = arm.body[-1]
         if isinstance(last, ast.Raise) and (last.exc is None or (isinstance(last.exc, ast.Name) and last.exc.id == arm.name)):
             c.ok(where(u, last), 'arm re-raises the caught exception')
